@@ -45,6 +45,9 @@ ASSUMPTIONS = [
 COQ_DEPS = ["Corr/ImagerCorr.vo"]
 
 
+EXTRA_OBLIGATIONS_ASYNC = True    # compiled while the correspondence runs
+
+
 def extra_obligations(tier):
     """Second tie (DESIGN 12.7): the geometry code of PersistenceImager is re-translated from the current
     source into Gallina over the abstract numeric record and must be convertible with Model/ImagerM.v
